@@ -199,6 +199,10 @@ def run_case(
         kwargs["select"] = tuple(sel) if cfg.get("selectAsTuple") and isinstance(sel, list) else sel
         if cfg.get("selectAsSet") and isinstance(sel, list) and len(sel) == 1:
             kwargs["select"] = set(sel)          # (one name only: a set has no order to compare results by)
+        if cfg.get("selectAs") == "keys" and isinstance(sel, list):
+            kwargs["select"] = dict.fromkeys(sel).keys()
+        elif cfg.get("selectAs") == "gen" and isinstance(sel, list):
+            kwargs["select"] = (nm for nm in list(sel))
     if "onMissing" in cfg:
         kwargs["on_missing"] = cfg["onMissing"]
     if "errMode" in cfg:
